@@ -15,7 +15,7 @@ ASSUMPTIONS = ["reference renderer/parser vf/ref/asm.py", "opcode names are the 
 NSHARDS = {"quick": 32, "thorough": 64}
 BUDGET_S = {"quick": 200, "thorough": 1800}
 MIN_HITS = {
-    'quick': {"exh2": 71442, "grammar": 800, "ws": 1360, "xasm": 79360, "digit_push": 34805, "reject_case": 356, "accept_case": 219, "conditional": 25788},
+    'quick': {"exh2": 71442, "grammar": 800, "ws": 1360, "xasm": 79360, "digit_push": 34805, "reject_case": 353, "accept_case": 222, "conditional": 25788},
     'thorough': {"exh2": 85730, "grammar": 192000, "ws": 325530, "xasm": 277957, "digit_push": 111679, "reject_case": 46023, "accept_case": 69177, "conditional": 127284, "push>=65536": 5353},
 }
 SEPS = [" ", "  ", "     ", " \n ", " \r\n ", " \n\n ", " \t ", "\n ", " \n", " \r\n", "\t "]
